@@ -535,6 +535,57 @@ def _stress(g, key):
             done.append('against-time-accepted!')
         except Exception:  # noqa: BLE001
             done.append('refused-against-time')
+    # 9. refused removals: every spelling of "remove this edge" with an edge type the edge does NOT have must raise and
+    #    leave the edge where it is (the type check belongs before the first write)
+    all_edges = [(e.source.identifier, e.destination.identifier, e.get_edge_type()) for e in g.get_edges()]
+    if all_edges and h // 151 % 2:
+        a, b, t = all_edges[h // 157 % len(all_edges)]
+        wrong = [x for x in EdgeType if x != t][h // 163 % 5]
+        for nm, f in (('delete_edge', lambda: g.delete_edge(a, b, edge_type=wrong)),
+                      ('remove_edge', lambda: g.remove_edge(a, b, edge_type=wrong)),
+                      ('remove_edge_by_pair', lambda: g.remove_edge_by_pair((a, b), edge_type=wrong))):
+            try:
+                f()
+                done.append(f'{nm}-with-wrong-type-accepted!')
+                _FAILURES.append(f'{nm}({a!r}, {b!r}, edge_type={str(wrong)!r}) did not raise although the stored edge has '
+                                 f'type {str(t)!r}')
+            except Exception:  # noqa: BLE001
+                done.append('refused-typed-removal')
+    # 10. refused bulk adders whose (only) element already exists: nothing may be added, nothing may be lost
+    if all_edges and h // 167 % 2:
+        a, b, t = all_edges[h // 173 % len(all_edges)]
+        try:
+            g.add_edges_from([(a, b)])
+            done.append('bulk-duplicate-accepted!')
+            _FAILURES.append(f'add_edges_from([({a!r}, {b!r})]) did not raise although the pair is already joined')
+        except Exception:  # noqa: BLE001
+            done.append('refused-bulk-duplicate')
+        try:
+            g.add_edge(a, b, edge_type=t)
+            done.append('duplicate-edge-accepted!')
+        except Exception:  # noqa: BLE001
+            done.append('refused-duplicate-edge')
+    # 11. a refused replace_edge whose NEW pair is already joined by an edge (EdgeExistsError): both edges stay
+    if len(all_edges) >= 2 and h // 179 % 2:
+        (a, b, _), (c, d, _) = all_edges[h // 181 % len(all_edges)], all_edges[h // 191 % len(all_edges)]
+        if (a, b) != (c, d):
+            try:
+                g.replace_edge(a, b, c, d)
+                done.append('replace-onto-existing-accepted!')
+                _FAILURES.append(f'replace_edge({a!r}, {b!r}, {c!r}, {d!r}) did not raise although the new pair is already joined')
+            except Exception:  # noqa: BLE001
+                done.append('refused-replace-onto-existing')
+    # 12. refused removals / look-ups of things that are not there
+    if names and h // 193 % 2:
+        a = names[h // 197 % len(names)]
+        for f in (lambda: g.delete_edge(a, 'zq absent'), lambda: g.delete_node('zq absent'), lambda: g.get_edge('zq absent', a),
+                  lambda: g.change_edge_type('zq absent', a, EdgeType.DIRECTED_EDGE), lambda: g.replace_node('zq absent', 'zq other'),
+                  lambda: g.replace_edge('zq absent', a, a, 'zq absent')):
+            try:
+                f()
+                done.append('absent-accepted!')
+            except Exception:  # noqa: BLE001
+                done.append('refused-absent')
     if h // 13 % 2:
         done += export_abuse(g)
     return done
